@@ -25,6 +25,7 @@ import PdshVerif.Relay.LabelLemmas
 import PdshVerif.Relay.Interleave
 import PdshVerif.Relay.Simulation
 import PdshVerif.Relay.IndexSim
+import PdshVerif.Relay.Stdio
 
 namespace PdshVerif.C06
 open PdshVerif.Relay
@@ -237,6 +238,72 @@ theorem records_own_label_any_schedule (labels optK rs re : Bool) (targets : Lis
   simp only [pfx] at h
   rw [label_correct labels optK targets _ (hn _ hmem) (fun t ht => (hn t ht).1)] at h
   exact h
+
+/-! ### the stdio layer below fputs (Relay/Stdio.lean)
+
+  ASSUMPTION: glibc's FILE behaves like the buffered writer `Stdio.File` (any capacity; full
+  buffering for a pipe/file, line buffering for a tty; written when full, on fflush, at exit()). -/
+
+open Stdio in
+/-- `consumer_sees_calls`: whatever the buffer size, the buffering mode and the flush schedule
+    (`ops` = the stdio calls of pdsh on one FILE in call order, with flushes -- the program's
+    fflush(NULL) after each line, or any other -- interspersed ANYWHERE), once pdsh has ended
+    through exit() the consumer of the descriptor has received exactly the concatenation of the
+    calls in call order: nothing lost, duplicated or reordered below fputs. -/
+theorem consumer_sees_calls (mode : Stdio.Mode) (cap : Nat) (ops : List Stdio.Op) :
+    consumerSees ⟨mode, cap, []⟩ ops = calls ops := by
+  have h := run_concat ops ⟨mode, cap, []⟩
+  simpa [consumerSees, atExit] using h
+
+open Stdio in
+/-- ... in particular for the relay: if the fputs operations among `ops` are the stdio calls
+    `ems` of a run (e.g. the global log of any schedule restricted to one FILE), the consumer
+    receives `ems` concatenated -- so the record structure proved for the calls is the record
+    structure of the byte stream -/
+theorem consumer_sees_relay_calls (mode : Stdio.Mode) (cap : Nat) (ops : List Stdio.Op) (ems : List Em)
+    (h : ops.filterMap (fun o => match o with | .fputs s => some s | .flush => none) = ems.map Em.bytes) :
+    consumerSees ⟨mode, cap, []⟩ ops = (ems.map Em.bytes).flatten := by
+  rw [consumer_sees_calls, ← h]
+  clear h
+  induction ops with
+  | nil => rfl
+  | cons o os ih => cases o <;> simp [calls, List.filterMap_cons, ih]
+
+open Stdio in
+/-- what fork() copies: in full-buffering mode, as long as the calls made since the last flush fit
+    the buffer, ALL of them are still in the FILE (nothing has reached the descriptor) -/
+theorem unflushed_calls_stay_buffered (cap : Nat) : ∀ (ops : List Stdio.Op) (buf : Relay.Bytes),
+    (∀ o ∈ ops, ∃ s, o = .fputs s) → (buf ++ calls ops).length ≤ cap →
+    (run ⟨.full, cap, buf⟩ ops).1.buf = buf ++ calls ops ∧ (run ⟨.full, cap, buf⟩ ops).2 = []
+  | [], buf, _, _ => by simp [run, calls]
+  | o :: os, buf, hall, hlen => by
+    obtain ⟨s, rfl⟩ := hall o (by simp)
+    have hfit : ¬ (buf ++ s).length > cap := by
+      simp only [calls, List.length_append] at hlen ⊢; omega
+    have ih := unflushed_calls_stay_buffered cap os (buf ++ s) (fun o ho => hall o (by simp [ho]))
+      (by simpa [calls, List.append_assoc] using hlen)
+    simp only [run, step, settle, hfit, ↓reduceIte, calls]
+    exact ⟨by rw [ih.1, List.append_assoc], by rw [ih.2]; rfl⟩
+
+open Stdio in
+/-- SEEDED C06-5, the mechanism: pdsh has written host h1's unterminated tail record "h1: t"
+    (`_flush_output` does not fflush, stdout is a pipe: the record is still in the FILE) and then
+    forks the transport's child for h2, whose execvp fails.  A child that leaves with exit()
+    writes the inherited record AGAIN -- to its own fd 1, the socket pdsh reads h2's output from --
+    and the relay prints it as h2's output: "h2: h1: t".  A child that leaves with `_exit()`
+    writes nothing (`at_Exit`), and `unstarted_host_writes_nothing` applies. -/
+theorem forked_child_exit_reemits_witness :
+    let parent := (run ⟨.full, 4096, []⟩ [.fputs [104, 49, 58, 32, 116]]).1      -- after fputs("h1: t")
+    atExit parent = [104, 49, 58, 32, 116] ∧ at_Exit parent = [] ∧
+    ∀ b0, mkFifoBuf 1 = some b0 →
+      (runStream fifoOps ⟨true, false, false, false, false⟩ [104, 50] [104, 49] 1 true b0 [atExit parent]).ems =
+        [⟨1, [104, 50, 58, 32, 104, 49, 58, 32, 116]⟩] ∧
+      (runStream fifoOps ⟨true, false, false, false, false⟩ [104, 50] [104, 49] 1 true b0 [at_Exit parent]).ems = [] := by
+  refine ⟨by decide, by decide, ?_⟩
+  intro b0 h
+  simp [mkFifoBuf, Cbuf.Spec.create, Gen.RELAY_CBUF_MIN, Gen.RELAY_CBUF_MAX] at h
+  subst h
+  exact ⟨by decide, by decide⟩
 
 /-! ### non-vacuity -/
 
